@@ -74,7 +74,7 @@ def _cmp(ctx, oracle, key, what, wa, wb, desc, scale_tol=None):
 
 def workload(ctx, lentil):
     rng = ctx.rng
-    n = 110 if ctx.tier == 'quick' else 800
+    n = ctx.count(110, 800)
     hi = 22 if ctx.tier == 'quick' else 40
     for i in range(n):
         wl, z, dx, du, os_ = gen.optics(rng)
